@@ -34,7 +34,7 @@ func (w *vfWorld) parked(ep int, op string, f func() (string, error)) {
 	go func() {
 		detail, err := f()
 		w.tr.emit(map[string]any{"ev": "ret", "ep": ep, "op": op, "cid": id, "ok": err == nil, "err": vfErrClass(err), "detail": detail, "t": w.now(),
-			"reason": err != nil && strings.Contains(err.Error(), "vf-abort-reason")})
+			"reason": err != nil && (strings.Contains(err.Error(), "vf-abort-reason") || strings.Contains(err.Error(), "User Initiated Abort: storm"))})
 		w.poke()
 	}()
 }
